@@ -42,9 +42,51 @@ func waitTimeout(wg *sync.WaitGroup, d time.Duration) bool {
 	}
 }
 
+// workersFlood: far more callers than cores, jobs that do nothing: a caller is regularly descheduled between handing its job
+// over and waiting for the reply, so the worker is done first. Every Call must still return its own job's result.
+func workersFlood(seed int) string {
+	r := rng.New(uint64(seed), "workers-flood")
+	var w bigbuff.Workers
+	callers, per := 48+r.Intn(32), 150
+	var wrong, errs atomic.Int32
+	var wg sync.WaitGroup
+	for c := 0; c < callers; c++ {
+		c := c
+		n := 1 + r.Intn(4)
+		wg.Add(1)
+		go func() {
+			defer wg.Done()
+			for k := 0; k < per; k++ {
+				want := c*1000 + k
+				v, err := w.Call(n, func() (interface{}, error) { return want, nil })
+				if err != nil {
+					errs.Add(1)
+				} else if v != want {
+					wrong.Add(1)
+				}
+			}
+		}()
+	}
+	if !waitTimeout(&wg, stepTimeout) {
+		return "hung=true wrong=? errors=?"
+	}
+	done := make(chan struct{})
+	go func() { w.Wait(); close(done) }()
+	select {
+	case <-done:
+	case <-time.After(stepTimeout):
+		return "hung=wait wrong=? errors=?"
+	}
+	return fmt.Sprintf("hung=false wrong=%d errors=%d", wrong.Load(), errs.Load())
+}
+
 func execWorkers(t *trace, script []string) {
 	for _, line := range script {
 		f := strings.Fields(line)
+		if len(f) == 2 && f[0] == "flood" {
+			t.Line(line, workersFlood(atoi(f[1])))
+			continue
+		}
 		if len(f) != 4 || f[0] != "run" {
 			continue
 		}
@@ -183,6 +225,9 @@ func execWorkers(t *trace, script []string) {
 }
 
 func genWorkers(r *rng.R, tier string, i int) []string {
+	if i%8 == 3 {
+		return []string{fmt.Sprintf("flood %d", r.Intn(1<<30))}
+	}
 	return []string{fmt.Sprintf("run %d %d %d", 2+r.Intn(5), 3+r.Intn(6), r.Intn(1<<30))}
 }
 
